@@ -110,6 +110,7 @@ def isInfinite : Scalar → Bool
 /-- "in range" for one leaf: an integer / integral-valued float lies within +-(2**53-1); a float is
     finite or NaN.  (Strings, None: nothing to demand.) -/
 def leafInRange : Scalar → Bool
+  | .int .npBool _ => true       -- numpy.bool_ is not a number at the JSON level (and not an `int`)
   | .int _ n => decide (-specBound ≤ n) && decide (n ≤ specBound)
   | .flt _ (.fin q) => !ratIsInt q || (decide ((-specBound : Int) ≤ q) && decide (q ≤ (specBound : Int)))
   | .flt _ .nan => true
@@ -123,6 +124,7 @@ def leafInRange : Scalar → Bool
     * an integral-valued float output lies within +-(2**53-1) unless the input was +-inf. -/
 def leafOK (inp out : Scalar) : Bool :=
   match out with
+  | .int .npBool _ => true
   | .int _ n => decide (-specBound ≤ n) && decide (n ≤ specBound)
   | .flt _ (.fin q) => isInfinite inp || !ratIsInt q || (decide ((-specBound : Int) ≤ q) && decide (q ≤ (specBound : Int)))
   | .flt _ .nan => true
